@@ -332,4 +332,220 @@ theorem outerSpec_mem (pat : List Nat) :
 
 end abs
 
+/-! ### the forward phase -/
+
+section fwd
+variable {c : Nat → Nat → Nat} {m : Nat} (hc : CountLaws c m) {i : Nat}
+
+/-- the list built so far by the forward loop standing at `(i, e)` -/
+structure FInv (c : Nat → Nat → Nat) (i e : Nat) (curr : List ((Nat × Nat) × Nat)) : Prop where
+  shape : ∀ x ∈ curr, x.1.1 = i ∧ i < x.1.2 ∧ x.1.2 < e ∧ x.2 = x.1.2 - i
+  sorted : (curr.map (·.1.2)).Pairwise (· ≤ ·)
+  cover : ∀ e', i < e' → e' < e → (∃ x ∈ curr, x.1.2 = e') ∨ c i e' = c i (e' + 1)
+
+/-- the list after the forward phase (before `reverse`): ends of the right extensions of `pattern[i..i+1)` at which
+the count drops, then the longest occurring extension `emax` -/
+structure FRes (c : Nat → Nat → Nat) (m i emax : Nat) (L : List ((Nat × Nat) × Nat)) : Prop where
+  shape : ∀ x ∈ L, x.1.1 = i ∧ i < x.1.2 ∧ x.1.2 ≤ emax ∧ x.2 = x.1.2 - i
+  sorted : (L.map (·.1.2)).Pairwise (· ≤ ·)
+  cover : ∀ e', i < e' → e' < emax → (∃ x ∈ L, x.1.2 = e') ∨ c i e' = c i (e' + 1)
+  last : ∃ x ∈ L, x.1.2 = emax
+  bound : i < emax ∧ emax ≤ m ∧ c i emax ≠ 0 ∧ (emax = m ∨ c i (emax + 1) = 0)
+
+theorem fres_snoc {e : Nat} {curr : List ((Nat × Nat) × Nat)} (h : FInv c i e curr) (hie : i < e) (hem : e ≤ m)
+    (hce : c i e ≠ 0) (hr : e = m ∨ c i (e + 1) = 0) : FRes c m i e (curr ++ [((i, e), e - i)]) := by
+  refine ⟨?_, ?_, ?_, ⟨((i, e), e - i), by simp, rfl⟩, hie, hem, hce, hr⟩
+  · intro x hx
+    rw [List.mem_append, List.mem_singleton] at hx
+    rcases hx with hx | hx
+    · have := h.shape x hx; omega
+    · subst hx; dsimp only; omega
+  · rw [List.map_append, List.pairwise_append]
+    refine ⟨h.sorted, by simp, ?_⟩
+    intro a ha b hb
+    simp only [List.map_cons, List.map_nil, List.mem_singleton] at hb
+    obtain ⟨x, hx, rfl⟩ := List.mem_map.mp ha
+    have := h.shape x hx; omega
+  · intro e' h1 h2
+    rcases h.cover e' h1 h2 with ⟨x, hx, he⟩ | h3
+    · exact Or.inl ⟨x, List.mem_append_left _ hx, he⟩
+    · exact Or.inr h3
+
+theorem fwdLoop_str_cons (a : Nat) (rest : List Nat) (e ml : Nat) (curr : List ((Nat × Nat) × Nat)) :
+    fwdLoop (strOps c) (a :: rest) (i, e) ml curr =
+      if c i (e + 1) = 0 then ((if c i e ≠ c i (e + 1) then curr ++ [((i, e), ml)] else curr), (i, e), ml)
+      else fwdLoop (strOps c) rest (i, e + 1) (ml + 1) (if c i e ≠ c i (e + 1) then curr ++ [((i, e), ml)] else curr) :=
+  rfl
+
+theorem fwd_spec : ∀ (rest : List Nat) (e : Nat) (curr : List ((Nat × Nat) × Nat)),
+    rest.length = m - e → i < e → e ≤ m → c i e ≠ 0 → FInv c i e curr →
+    ∃ emax, FRes c m i emax ((fwdLoop (strOps c) rest (i, e) (e - i) curr).1 ++
+      [((fwdLoop (strOps c) rest (i, e) (e - i) curr).2.1, (fwdLoop (strOps c) rest (i, e) (e - i) curr).2.2)])
+  | [], e, curr, hlen, hie, hem, hce, h => by
+    simp only [fwdLoop]
+    simp only [List.length_nil] at hlen
+    exact ⟨e, fres_snoc h hie hem hce (Or.inl (by omega))⟩
+  | a :: rest, e, curr, hlen, hie, hem, hce, h => by
+    simp only [List.length_cons] at hlen
+    rw [fwdLoop_str_cons]
+    by_cases h0 : c i (e + 1) = 0
+    · rw [if_pos h0]
+      have hne : c i e ≠ c i (e + 1) := by omega
+      rw [if_pos hne]
+      refine ⟨e, ?_⟩
+      have h1 := fres_snoc h hie hem hce (Or.inr h0)
+      refine ⟨?_, ?_, ?_, ⟨((i, e), e - i), by simp, rfl⟩, h1.bound⟩
+      · intro x hx
+        rw [List.mem_append, List.mem_singleton] at hx
+        rcases hx with hx | rfl
+        · exact h1.shape x hx
+        · dsimp only; omega
+      · rw [List.map_append, List.pairwise_append]
+        refine ⟨h1.sorted, by simp, ?_⟩
+        intro a ha b hb
+        simp only [List.map_cons, List.map_nil, List.mem_singleton] at hb
+        obtain ⟨x, hx, rfl⟩ := List.mem_map.mp ha
+        have := h1.shape x hx; omega
+      · intro e' g1 g2
+        rcases h1.cover e' g1 g2 with ⟨x, hx, he⟩ | h3
+        · exact Or.inl ⟨x, List.mem_append_left _ hx, he⟩
+        · exact Or.inr h3
+    · rw [if_neg h0]
+      have hml : e - i + 1 = e + 1 - i := by omega
+      rw [hml]
+      apply fwd_spec rest (e + 1) _ (by omega) (by omega) (by omega) h0
+      by_cases hne : c i e ≠ c i (e + 1)
+      · rw [if_pos hne]
+        refine ⟨?_, ?_, ?_⟩
+        · intro x hx
+          rw [List.mem_append, List.mem_singleton] at hx
+          rcases hx with hx | rfl
+          · have := h.shape x hx; omega
+          · dsimp only; omega
+        · rw [List.map_append, List.pairwise_append]
+          refine ⟨h.sorted, by simp, ?_⟩
+          intro a ha b hb
+          simp only [List.map_cons, List.map_nil, List.mem_singleton] at hb
+          obtain ⟨x, hx, rfl⟩ := List.mem_map.mp ha
+          have := h.shape x hx; omega
+        · intro e' g1 g2
+          by_cases hee : e' = e
+          · subst hee; exact Or.inl ⟨((i, e'), e' - i), by simp, rfl⟩
+          · rcases h.cover e' g1 (by omega) with ⟨x, hx, he⟩ | h3
+            · exact Or.inl ⟨x, List.mem_append_left _ hx, he⟩
+            · exact Or.inr h3
+      · rw [if_neg hne]
+        refine ⟨?_, h.sorted, ?_⟩
+        · intro x hx
+          have := h.shape x hx; omega
+        · intro e' g1 g2
+          by_cases hee : e' = e
+          · subst hee; right; omega
+          · exact h.cover e' g1 (by omega)
+
+include hc in
+/-- after the forward phase the invariant of the backward sweep holds at `kk = i` -/
+theorem inv_of_fres {emax : Nat} {L : List ((Nat × Nat) × Nat)} (h : FRes c m i emax L) :
+    Inv c m i i L.reverse := by
+  obtain ⟨hb1, hb2, hb3, hb4⟩ := h.bound
+  refine ⟨?_, ?_, ?_⟩
+  · intro x hx
+    rw [List.mem_reverse] at hx
+    have hs := h.shape x hx
+    have := hc.anti i i x.1.2 emax (Nat.le_refl _) hs.2.1 hs.2.2.1 hb2
+    exact ⟨hs.1, hs.2.1, by omega, hs.2.2.2, by omega⟩
+  · rw [List.map_reverse, List.pairwise_reverse]
+    exact h.sorted.imp (fun hab => hab)
+  · intro e hie hem hce
+    have hle : e ≤ emax := by
+      apply Classical.byContradiction
+      intro hgt
+      rcases hb4 with hb4 | hb4
+      · omega
+      · have := hc.anti i i (emax + 1) e (Nat.le_refl _) (by omega) (by omega) hem
+        omega
+    -- climb from `e` to the next recorded end
+    have key : ∀ d e, emax - e = d → i < e → e ≤ emax → c i e ≠ 0 →
+        ∃ x ∈ L, e ≤ x.1.2 ∧ c i e = c i x.1.2 := by
+      intro d
+      induction d with
+      | zero =>
+        intro e hd h1 h2 _
+        obtain ⟨x, hx, he⟩ := h.last
+        exact ⟨x, hx, by omega, by rw [he]; congr 1; omega⟩
+      | succ d ih =>
+        intro e hd h1 h2 h3
+        rcases h.cover e h1 (by omega) with ⟨x, hx, he⟩ | heq
+        · exact ⟨x, hx, by omega, by rw [he]⟩
+        · obtain ⟨x, hx, hle, hcx⟩ := ih (e + 1) (by omega) (by omega) (by omega) (by omega)
+          exact ⟨x, hx, by omega, by omega⟩
+    obtain ⟨x, hx, h1, h2⟩ := key (emax - e) e rfl hie hle hce
+    exact ⟨x, List.mem_reverse.mpr hx, h1, h2⟩
+
+theorem forwardPhase_str (pat : List Nat) (i : Nat) :
+    forwardPhase (strOps c) pat i =
+      ((fwdLoop (strOps c) (pat.drop (i + 1)) (i, i + 1) (if c i (i + 1) ≠ 0 then 1 else 0) []).1 ++
+        [((fwdLoop (strOps c) (pat.drop (i + 1)) (i, i + 1) (if c i (i + 1) ≠ 0 then 1 else 0) []).2.1,
+          (fwdLoop (strOps c) (pat.drop (i + 1)) (i, i + 1) (if c i (i + 1) ≠ 0 then 1 else 0) []).2.2)]).reverse :=
+  rfl
+
+include hc in
+theorem forwardPhase_inv (pat : List Nat) (hm : pat.length = m) (hi : i < m) (h0 : c i (i + 1) ≠ 0) :
+    Inv c m i i (forwardPhase (strOps c) pat i) := by
+  rw [forwardPhase_str, if_pos h0]
+  have hF : FInv c i (i + 1) [] := ⟨by simp, by simp, fun e' h1 h2 => by omega⟩
+  obtain ⟨emax, hres⟩ := fwd_spec (pat.drop (i + 1)) (i + 1) [] (by rw [List.length_drop, hm]) (by omega)
+    (by omega) h0 hF
+  have e1 : i + 1 - i = 1 := by omega
+  rw [e1] at hres
+  exact inv_of_fres hc hres
+
+include hc in
+/-- `pattern[i]` does not occur: nothing is reported (for `l ≥ 1`) -/
+theorem smems_dead (pat : List Nat) (hm : pat.length = m) (hi : i < m) (l : Nat) (hl : 1 ≤ l)
+    (h0 : c i (i + 1) = 0) : smems (strOps c) pat i l = [] := by
+  have hfp : forwardPhase (strOps c) pat i = [((i, i + 1), 0)] := by
+    have : ¬ c i (i + 1) ≠ 0 := by omega
+    rw [forwardPhase_str, if_neg this]
+    cases hd : pat.drop (i + 1) with
+    | nil => simp [fwdLoop]
+    | cons a rest =>
+      have hlen : (pat.drop (i + 1)).length = m - (i + 1) := by rw [List.length_drop, hm]
+      rw [hd, List.length_cons] at hlen
+      have h2 : c i (i + 1 + 1) = 0 := by
+        have := hc.anti i i (i + 1) (i + 1 + 1) (Nat.le_refl _) (by omega) (by omega) (by omega)
+        omega
+      simp [fwdLoop, h0, h2]
+  unfold smems
+  rw [hfp, outer_eq_spec _ _ _ _ _ _ _ (by omega) (by simp)]
+  have hnl : ¬ l ≤ 0 := by omega
+  cases i with
+  | zero => simp [outerSpec, report, hnl]
+  | succ k =>
+    have h2 : c k (k + 1 + 1) = 0 := by
+      have := hc.anti k (k + 1) (k + 1 + 1) (k + 1 + 1) (by omega) (by omega) (Nat.le_refl _) (by omega)
+      omega
+    simp [outerSpec, report, hnl, ext, dedup, h2]
+
+include hc in
+/-- **the string-level sweep is correct**: started at `i < |pattern|` with `l ≥ 1` it returns exactly the
+supermaximal matches (in the sense of the counts) covering `i` of length `≥ l`, each with its own interval -/
+theorem smems_abs_correct (pat : List Nat) (hm : pat.length = m) (hi : i < m) (l : Nat) (hl : 1 ≤ l)
+    (x : Hit (Nat × Nat)) :
+    x ∈ smems (strOps c) pat i l ↔
+      (x.iv = (x.pos, x.pos + x.len) ∧ x.pos ≤ i ∧ AbsSmem c m x.pos x.len ∧ i < x.pos + x.len ∧ l ≤ x.len) := by
+  by_cases h0 : c i (i + 1) = 0
+  · rw [smems_dead hc pat hm hi l hl h0]
+    simp only [List.not_mem_nil, false_iff]
+    rintro ⟨_, h2, ⟨g1, g2, g3, _, _⟩, h4, _⟩
+    have := hc.anti x.pos i (i + 1) (x.pos + x.len) h2 (by omega) (by omega) g2
+    omega
+  · have hinv := forwardPhase_inv hc pat hm hi h0
+    unfold smems
+    rw [outer_eq_spec _ _ _ _ _ _ _ (by omega) hinv.mls_sorted,
+      outerSpec_mem hc l pat i _ [] (Nat.le_refl _) hinv x]
+    simp
+
+end fwd
+
 end RbV.SmemModel
